@@ -1,23 +1,75 @@
+import json
 import vf
 
-SPEC = dict(
-    level="proof",
-    harness=dict(pkg_dir="index", run="TestVerifC21$", files=["index/zz_verif_c01_test.go", "index/zz_verif_c21_test.go"],
-                 n_quick=300, n_thorough=6000),
-    runner=dict(imports=["From ZV Require Import Lib.Base Model.SearchCore Model.SearchLimits."], case_type="c21case",
-                mismatch_fn="c21_mismatches", shard=150),
-    rule="C01's corpora (real shards: 1-3 repositories, 1-10 documents, tombstones) x broad and random query trees x limit settings "
-         "(ShardMaxMatchCount in {default,1..6,100}, ShardRepoMaxMatchCount in {0,1,2,3}, both, LineMatches / ChunkMatches) and cancellation "
-         "through a context whose Done() reports closed after k in 0..5 polls; non-trivial = the limited run returns fewer files than the "
-         "unlimited one.",
-    trusted_base=["correspondence harness harness/overlay/index/zz_verif_c21_test.go + zz_verif_c01_test.go (generator, oracle: limited files are a "
-                  "subsequence of the unlimited files with reflect.DeepEqual FileMatch values; prefix when no per-repository limit)",
-                  "the search-core model of C01 (coq/Model/SearchCore.v) with its trusted base",
-                  "the match count a file contributes is taken from the unlimited run of the implementation (a function of the document only, "
-                  "theorem C21_file_payload_independent)",
-                  "promptness of real deadlines is runtime behaviour: only 'terminates, no panic' is observed (polled context)"],
-    assumptions=["as C01: valid UTF-8, agree, sizes < 2^32"],
-)
+H_INDEX = dict(pkg_dir="index", run="TestVerifC21$", files=["index/zz_verif_c01_test.go", "index/zz_verif_c21_test.go"], n_quick=240, n_thorough=4000)
+H_TOTAL = dict(pkg_dir="search", run="TestVerifC21Total$", files=["search/zz_verif_c21_test.go"], n_quick=50, n_thorough=600)
+IMPORTS = ["From ZV Require Import Lib.Base Model.SearchCore Model.SearchLimits."]
+RULE = ("C01's corpora (real shards: 1-3 repositories, 1-10 documents, tombstones) x broad and random query trees x limit settings "
+        "(ShardMaxMatchCount in {default,1..6,100}, ShardRepoMaxMatchCount in {0,1,2,3}, both, LineMatches / ChunkMatches) and cancellation "
+        "through a context whose Done() reports closed after k in 0..5 polls; plus 2-5 single-repository shards behind a real shardedSearcher "
+        "(one worker) x TotalMaxMatchCount in 1..5; non-trivial = the limited run returns fewer files / shard results than the unlimited one.")
+TRUSTED = ["correspondence harnesses harness/overlay/index/zz_verif_c21_test.go (+ zz_verif_c01_test.go) and harness/overlay/search/zz_verif_c21_test.go "
+           "(generators; oracle: limited files are a subsequence of the unlimited files with reflect.DeepEqual FileMatch values, prefix when no "
+           "per-repository limit, every repository kept under ShardRepoMaxMatchCount=1, whole shard results under the total limit)",
+           "the search-core model of C01 (coq/Model/SearchCore.v) with its trusted base",
+           "the match count a file contributes is taken from the unlimited run of the implementation (a function of the document only, "
+           "theorem C21_file_payload_independent)",
+           "total limit: one worker (GOMAXPROCS(1)) so that shard results arrive in dispatch order; the number of in-flight shards at stop() is "
+           "existentially quantified (<= 3) in the comparison",
+           "promptness of real deadlines is runtime behaviour: only 'terminates, no panic' is observed (polled context)"]
+ASSUME = ["as C01: valid UTF-8, agree, sizes < 2^32"]
+
 
 def run(ctx):
-    return vf.standard_check(ctx, SPEC)
+    pid = ctx.pid
+    proofs = vf.coq_props(ctx, pid)
+    broken, failures = [], []
+    aok, aout = vf.audit()
+    if not aok:
+        proofs["ok"] = False
+        proofs["discharged"] = 0
+        broken.append("audit: " + aout[-800:])
+    if ctx.tier == "thorough" and proofs["ok"]:
+        cok, cout = vf.coqchk(pid)
+        proofs["coqchk"] = cout[-1500:]
+        if not cok:
+            proofs["ok"] = False
+            broken.append("coqchk rejects Props/%s.vo: %s" % (pid, cout[-800:]))
+    if not proofs["ok"]:
+        broken.append("proof obligations of Props/%s.v do not check: %s" % (pid, (proofs.get("broken_files") or proofs.get("nonstd_axioms") or proofs["log"][-800:])))
+    allcases, evaluated, mism = [], 0, 0
+    for h, ctype, fn, tag in ((H_INDEX, "c21case", "c21_mismatches", "i"), (H_TOTAL, "c21tcase", "c21t_mismatches", "t")):
+        n = ctx.n(h["n_quick"], h["n_thorough"])
+        hr = vf.go_harness(ctx, h["pkg_dir"], h["run"], h["files"], n, timeout=900 if ctx.tier == "quick" else 3600, out_name="out-%s.jsonl" % tag)
+        recs = hr["records"]
+        cases = [r for r in recs if r.get("kind") == "case"]
+        for r in recs:
+            if r.get("kind") == "oracle_fail":
+                failures.append(dict(key=r.get("key", "?"), what=r.get("what", ""), replay=r.get("replay")))
+        if hr["rc"] != 0:
+            broken.append("harness %s failed (rc=%d): %s" % (h["run"], hr["rc"], hr["log"][-1500:]))
+        if cases:
+            ev = vf.coq_eval_cases(ctx, pid, IMPORTS, ctype, fn, [c["coq"] for c in cases], shard=150, tag=tag)
+            if not ev["ok"]:
+                broken.append("model evaluation failed: " + ev["log"][-1500:])
+            evaluated += ev["evaluated"]
+            mism += len(ev["bad"])
+            for i in ev["bad"][:20]:
+                broken.append("correspondence %s: model and implementation disagree on case %s" % (fn, json.dumps(cases[i].get("sample"), default=str)[:1500]))
+        elif hr["rc"] == 0:
+            broken.append("harness %s produced no cases" % h["run"])
+        allcases += cases
+    cov = dict(
+        evaluations=len(allcases),
+        distinct_nontrivial=vf.distinct_nontrivial(allcases),
+        rule=RULE,
+        samples=[c.get("sample") for c in allcases[:3]] or [],
+        traces_validated_against_impl=evaluated,
+        correspondence_mismatches=mism,
+        oracle_failures=len(failures),
+        input_distribution=vf.histogram(allcases, "class"),
+        trusted_base=TRUSTED,
+    )
+    if proofs.get("coqchk"):
+        cov["coqchk"] = proofs["coqchk"]
+    return vf.finish(ctx, "proof", proofs, cov, failures=failures, broken=broken, assumptions=ASSUME)
